@@ -101,6 +101,28 @@ def continuous_cases():
          stats.gamma(2.0, scale=1.0), 2, 256, (0, inf), []),
         ("Normal(0,1)", lambda s: D.DistNormal(s, 0.0, 1.0),
          stats.norm(0.0, 1.0), 2, 256, (-inf, inf), []),
+        # parameters given as Python ints (documented: float or int)
+        ("Gamma(int 3,4.0)", lambda s: D.DistGamma(s, 3, 4.0),
+         stats.gamma(3, scale=4.0), 2, 256, (0, inf), []),
+        ("Gamma(int 4,int 2)", lambda s: D.DistGamma(s, 4, 2),
+         stats.gamma(4, scale=2.0), 2, 256, (0, inf), []),
+        ("Gamma(int 1,int 2)", lambda s: D.DistGamma(s, 1, 2),
+         stats.gamma(1, scale=2.0), 1, 1 << 13, (0, inf), []),
+        ("Weibull(int 2,int 3)", lambda s: D.DistWeibull(s, 2, 3),
+         stats.weibull_min(2, scale=3), 1, 1 << 13, (0, inf), []),
+        ("Exponential(int 2)", lambda s: D.DistExponential(s, 2),
+         stats.expon(scale=2.0), 1, 1 << 13, (0, inf), []),
+        ("Normal(int 1,int 2)", lambda s: D.DistNormal(s, 1, 2),
+         stats.norm(1.0, 2.0), 2, 256, (-inf, inf), []),
+        ("Beta(int 2,int 3)", lambda s: D.DistBeta(s, 2, 3),
+         stats.beta(2, 3), 4, 22, (0, 1), [0.0, 1.0]),
+        ("Pearson5(int 2,int 3)", lambda s: D.DistPearson5(s, 2, 3),
+         stats.invgamma(2.0, scale=3.0), 2, 256, (0, inf), []),
+        ("Triangular(int 1,2,4)", lambda s: D.DistTriangular(s, 1, 2, 4),
+         stats.triang(c=1 / 3, loc=1, scale=3), 1, 1 << 13, (1, 4),
+         [1.0, 2.0, 4.0]),
+        ("Uniform(int 1,int 4)", lambda s: D.DistUniform(s, 1, 4),
+         stats.uniform(1, 3), 1, 1 << 13, (1, 4), [1.0, 4.0]),
         ("Uniform(1,4)", lambda s: D.DistUniform(s, 1.0, 4.0),
          stats.uniform(1, 3), 1, 1 << 14, (1, 4), [1.0, 4.0]),
         ("Triangular(1,2,4)", lambda s: D.DistTriangular(s, 1.0, 2.0, 4.0),
